@@ -101,9 +101,17 @@ func (t *lpTr) flIsNil(e ast.Expr) bool {
 }
 
 // which byte-slice variables must carry the nil / non-nil distinction
+// fl: the forms of this file apply to the base run of the translator (Gen/Loops.lean) only; the option/TLV mode
+// (loops_opts.go, g.ext != nil) and the DNS mode (loops_dns.go, dnsTy != nil) have their own renderings of the same Go
+// constructs (x == nil as a length test, []net.IP as List Bytes, …) and their tie theorems depend on them
+func (t *lpTr) fl() bool { return t.g.ext == nil && t.dnsTy == nil }
+
 func (t *lpTr) scanNilable() {
 	t.nilable = map[*types.Var]bool{}
 	t.errParam = map[*types.Var]bool{}
+	if !t.fl() {
+		return
+	}
 	ast.Inspect(t.fd, func(x ast.Node) bool {
 		switch s := x.(type) {
 		case *ast.BinaryExpr:
@@ -190,6 +198,9 @@ func (t *lpTr) optExpr(e ast.Expr, b *lpBinds) string {
 
 // calls that yield a byte sequence through the callee map
 func (t *lpTr) extBytesCall(x *ast.CallExpr, b *lpBinds) (string, bool) {
+	if !t.fl() {
+		return "", false
+	}
 	name, sel := t.calleeName(x)
 	switch name {
 	case "strconv.AppendInt":
@@ -220,6 +231,9 @@ func (t *lpTr) extBytesCall(x *ast.CallExpr, b *lpBinds) (string, bool) {
 
 // xs[i] where xs is a []string / []net.IP local or a package-level []string table
 func (t *lpTr) listIndex(x *ast.IndexExpr, b *lpBinds) (string, string, bool) {
+	if !t.fl() {
+		return "", "", false
+	}
 	bt := t.info.TypeOf(x.X)
 	if bt == nil {
 		return "", "", false
@@ -349,6 +363,9 @@ func (g *lpGen) strTable(t *lpTr, v *types.Var, at ast.Node) string {
 
 // conditions of the extension: nil tests, string equality, netip.Addr.IsValid
 func (t *lpTr) flCond(e ast.Expr, b *lpBinds) (string, bool) {
+	if !t.fl() {
+		return "", false
+	}
 	switch x := e.(type) {
 	case *ast.BinaryExpr:
 		if x.Op != token.EQL && x.Op != token.NEQ {
@@ -391,6 +408,9 @@ func (t *lpTr) flCond(e ast.Expr, b *lpBinds) (string, bool) {
 
 // b := a.AppendTo(l.buffer[lo:hi])
 func (t *lpTr) extDefine(v *types.Var, rhs ast.Expr, b *lpBinds) bool {
+	if !t.fl() {
+		return false
+	}
 	c, ok := paren(rhs).(*ast.CallExpr)
 	if !ok {
 		return false
